@@ -227,7 +227,12 @@ func DecodeMessage(data []byte) (Message, error) {
 //
 // Integer IDs are parsed exactly: decoding them through float64 (the default
 // for untyped JSON numbers) would silently alter integers above 2^53.
-func decodeID(raw json.RawMessage) (ID, error) {
+func decodeID(raw json.RawMessage) (ID, error) { return DecodeID(raw) }
+
+// DecodeID decodes the raw JSON value of a request ID (for instance the
+// "requestId" member of a cancellation notice) the way message IDs are decoded:
+// integers exactly, not through float64.
+func DecodeID(raw json.RawMessage) (ID, error) {
 	raw = bytes.TrimSpace(raw)
 	if len(raw) == 0 {
 		return ID{}, nil
